@@ -1,141 +1,1 @@
-/-
-  C19 — option spellings are interchangeable; bad command lines are rejected.
-  All theorems are over an arbitrary well-formed option table; `table_wf` instantiates them for the table that
-  tools/gen_tables.py regenerates from src/options.cpp on every run.
--/
-import PatchModel.Model.Cmdline
-namespace PatchModel.C19
-open PatchModel
-
-/-- the byte of a short option name (short names of long-only options are > 127 and have none) -/
-def shortByte (o : Opt) : Option UInt8 :=
-  if 0 ≤ o.shortName ∧ o.shortName < 128 then some (UInt8.ofNat o.shortName.toNat) else none
-
-/-- well-formedness of an option table: distinct short names, distinct long names, long names start with "--",
-    are longer than that and contain no '='; no short name is '-' or the operand code '?' -/
-def tableWF (t : List Opt) : Bool :=
-  (t.map (·.shortName)).Nodup && (t.map (·.longName)).Nodup &&
-  t.all fun o => [MINUS, MINUS].isPrefixOf o.longName && decide (o.longName.length > 2) && !o.longName.contains EQ
-    && o.shortName != 45 && o.shortName != OPERAND && decide (-128 ≤ o.shortName)
-
-/-- the regenerated table is well formed -/
-theorem table_wf : tableWF optionTable = true := by
-  sorry
-
-/-- `CmdLineParser::parse` with the fuel `commandLine` gives it -/
-def parseArgv (t : List Opt) (argv : List Bytes) : List OptCall × Option Exn := parseArgs t (argv.length + 1) argv
-
-/-- two command lines are interchangeable: same resulting options, or both rejected -/
-def Same (t : List Opt) (a b : List Bytes) : Prop :=
-  ∀ env, (commandLine t a env).toOption = (commandLine t b env).toOption
-
-/-- short option: attached argument ≡ separate argument -/
-theorem short_attached_separate (t : List Opt) (hw : tableWF t = true) (o : Opt) (ho : o ∈ t) (harg : o.hasArg = true)
-    (c : UInt8) (hc : shortByte o = some c) (v : Bytes) (hv : v ≠ []) (rest : List Bytes) :
-    parseArgv t (([MINUS, c] ++ v) :: rest) = parseArgv t ([MINUS, c] :: v :: rest) := by
-  sorry
-
-/-- long option: `--name=value` ≡ `--name value` -/
-theorem long_eq_separate (t : List Opt) (hw : tableWF t = true) (o : Opt) (ho : o ∈ t) (harg : o.hasArg = true)
-    (v : Bytes) (rest : List Bytes) :
-    parseArgv t ((o.longName ++ [EQ] ++ v) :: rest) = parseArgv t (o.longName :: v :: rest) := by
-  sorry
-
-/-- short form ≡ long form -/
-theorem short_long (t : List Opt) (hw : tableWF t = true) (o : Opt) (ho : o ∈ t)
-    (c : UInt8) (hc : shortByte o = some c) (rest : List Bytes) :
-    parseArgv t ([MINUS, c] :: rest) = parseArgv t (o.longName :: rest) := by
-  sorry
-
-/-- any unambiguous prefix of a long name ≡ the full name (with or without `=value`) -/
-theorem prefix_unambiguous (t : List Opt) (hw : tableWF t = true) (o : Opt) (ho : o ∈ t)
-    (pre : Bytes) (hlen : pre.length > 2) (hp : pre.isPrefixOf o.longName = true)
-    (huniq : ∀ o' ∈ t, pre.isPrefixOf o'.longName = true → o' = o)
-    (suffix : Bytes) (hs : suffix = [] ∨ suffix.head? = some EQ) (next : List Bytes) :
-    parseLong t (pre ++ suffix) next = parseLong t (o.longName ++ suffix) next := by
-  sorry
-
-/-- a prefix matching two or more long names and equal to none is rejected -/
-theorem prefix_ambiguous (t : List Opt) (hw : tableWF t = true) (o1 o2 : Opt) (h1 : o1 ∈ t) (h2 : o2 ∈ t) (hne : o1 ≠ o2)
-    (pre : Bytes) (hp1 : pre.isPrefixOf o1.longName = true) (hp2 : pre.isPrefixOf o2.longName = true)
-    (hno : ∀ o ∈ t, o.longName ≠ pre) (hnoeq : ¬ pre.contains EQ)
-    (suffix : Bytes) (hs : suffix = [] ∨ suffix.head? = some EQ) (next : List Bytes) :
-    parseLong t (pre ++ suffix) next = .error .cmdlineError := by
-  sorry
-
-/-- bundled short flags ≡ the flags one by one -/
-theorem bundle (t : List Opt) (hw : tableWF t = true) (cs : List UInt8) (hne : cs ≠ [])
-    (hflags : ∀ c ∈ cs, ∃ o ∈ t, shortByte o = some c ∧ o.hasArg = false) (rest : List Bytes) :
-    parseArgv t (([MINUS] ++ cs) :: rest) = parseArgv t (cs.map (fun c => [MINUS, c]) ++ rest) := by
-  sorry
-
-/-- `--` ends option parsing: everything after it is an operand -/
-theorem dashdash (t : List Opt) (rest : List Bytes) :
-    parseArgv t ([MINUS, MINUS] :: rest) = (rest.map fun a => (OPERAND, a), none) := by
-  sorry
-
-/-- an operand (anything not starting with '-', or "-" itself) may be placed before or after a flag -/
-theorem operand_flag_commute (t : List Opt) (hw : tableWF t = true) (x : Bytes) (hx : x.head? ≠ some MINUS ∨ x = [MINUS])
-    (f : Bytes) (o : Opt) (ho : o ∈ t) (hflag : o.hasArg = false)
-    (hf : f = o.longName ∨ ∃ c, shortByte o = some c ∧ f = [MINUS, c]) (rest : List Bytes) :
-    Same t (x :: f :: rest) (f :: x :: rest) := by
-  sorry
-
-/-- an operand may be placed before or after an option with its argument — except `-i`, which shares its slot with the
-    second operand (known behaviour D21) -/
-theorem operand_option_commute (t : List Opt) (hw : tableWF t = true) (x : Bytes) (hx : x.head? ≠ some MINUS ∨ x = [MINUS])
-    (f v : Bytes) (o : Opt) (ho : o ∈ t) (harg : o.hasArg = true) (hi : o.shortName ≠ 105)
-    (hf : f = o.longName ∨ ∃ c, shortByte o = some c ∧ f = [MINUS, c]) (rest : List Bytes) :
-    Same t (x :: f :: v :: rest) (f :: v :: x :: rest) := by
-  sorry
-
-/-! ### rejections: each of these makes `commandLine` fail (main maps every failure to exit status 2 before any file is touched) -/
-
-theorem reject_unknown_short (t : List Opt) (c : UInt8) (hc : ∀ o ∈ t, o.shortName ≠ charVal c) (hm : c ≠ MINUS)
-    (more : Bytes) (pre rest : List Bytes) (env : Env)
-    (hpre : ∀ a ∈ pre, a.head? ≠ some MINUS) :
-    (commandLine t (pre ++ ([MINUS, c] ++ more) :: rest) env).toOption = none := by
-  sorry
-
-theorem reject_unknown_long (t : List Opt) (arg : Bytes) (h2 : [MINUS, MINUS].isPrefixOf arg = true) (hlen : arg.length > 2)
-    (hnone : ∀ o ∈ t, (arg.takeWhile (· != EQ)).isPrefixOf o.longName = false)
-    (pre rest : List Bytes) (env : Env) (hpre : ∀ a ∈ pre, a.head? ≠ some MINUS) :
-    (commandLine t (pre ++ arg :: rest) env).toOption = none := by
-  sorry
-
-theorem reject_missing_argument (t : List Opt) (hw : tableWF t = true) (o : Opt) (ho : o ∈ t) (harg : o.hasArg = true)
-    (f : Bytes) (hf : f = o.longName ∨ ∃ c, shortByte o = some c ∧ f = [MINUS, c])
-    (pre : List Bytes) (env : Env) (hpre : ∀ a ∈ pre, a.head? ≠ some MINUS) :
-    (commandLine t (pre ++ [f]) env).toOption = none := by
-  sorry
-
-theorem reject_flag_with_value (t : List Opt) (hw : tableWF t = true) (o : Opt) (ho : o ∈ t) (hflag : o.hasArg = false)
-    (v : Bytes) (pre rest : List Bytes) (env : Env) (hpre : ∀ a ∈ pre, a.head? ≠ some MINUS) :
-    (commandLine t (pre ++ (o.longName ++ [EQ] ++ v) :: rest) env).toOption = none := by
-  sorry
-
-/-- a non-numeric (or out of range) argument to -F / -p -/
-theorem reject_non_numeric (v : Bytes) (hv : (stoi v).toOption = none) (code : Int) (hc : code = 70 ∨ code = 112)
-    (st : HandlerState) : (processOption st (code, v)).toOption = none := by
-  sorry
-
-/-- what counts as a number: optional blanks, optional sign, digits, nothing after -/
-theorem stoi_digits (ds : Bytes) (hne : ds ≠ []) (hd : ∀ c ∈ ds, 48 ≤ c ∧ c ≤ 57) (hsmall : ds.length ≤ 9) :
-    ∃ n : Int, stoi ds = .ok n ∧ 0 ≤ n := by
-  sorry
-
-theorem stoi_rejects_trailing (s : Bytes) (c : UInt8) (hc : ¬ (48 ≤ c ∧ c ≤ 57))
-    (hne : s ≠ []) (hd : ∀ d ∈ s, 48 ≤ d ∧ d ≤ 57) : (stoi (s ++ [c])).toOption = none := by
-  sorry
-
-/-- a third operand -/
-theorem reject_third_operand (st : HandlerState) (hp : st.positional = 2) (v : Bytes) :
-    (processOption st (OPERAND, v)).toOption = none := by
-  sorry
-
-theorem third_operand_rejected (t : List Opt) (a b c : Bytes)
-    (ha : a.head? ≠ some MINUS) (hb : b.head? ≠ some MINUS) (hc : c.head? ≠ some MINUS) (env : Env) :
-    (commandLine t [a, b, c] env).toOption = none := by
-  sorry
-
-end PatchModel.C19
+import PatchModel.Props.C19
